@@ -588,6 +588,26 @@ Section Final.
 
   Lemma key_after_remove hf ops k i n : get_key hf (run vh cap (ops ++ [Remove n])) k i <> Ok (Some n).
   Proof. rewrite get_key_eq. apply after_remove. Qed.
+  (* a Get overlapping Remove n answers like a Get before it or a Get after it; with another node of positive weight
+     present all the time both are present nodes (never absent), and the later one is not n *)
+  Lemma has_positive_not_none ops x i : (exists a r, In (a, r) (members_of cap ops) /\ (0 < r)%nat) ->
+    exists p, get (run vh cap ops) x i = Ok (Some p).
+  Proof.
+    intros (a & r & Hin & Hr). destruct (refines ops x i) as [[Hg Hp]|[p [Hg _]]]; [|eauto].
+    exfalso. pose proof (proj1 (positions_nil_iff _) Hp _ _ Hin). lia.
+  Qed.
+
+  Lemma overlap_remove ops x i1 i2 n :
+    (exists a r, a <> n /\ In (a, r) (members_of cap ops) /\ (0 < r)%nat) ->
+    (exists p, get (run vh cap ops) x i1 = Ok (Some p)) /\
+    (exists q, get (run vh cap (ops ++ [Remove n])) x i2 = Ok (Some q) /\ q <> n).
+  Proof.
+    intros (a & r & Hne & Hin & Hr). split.
+    - apply has_positive_not_none. eauto.
+    - destruct (has_positive_not_none (ops ++ [Remove n]) x i2) as [q Hq].
+      + exists a, r. split; [|assumption]. rewrite members_snoc. simpl. unfold m_remove. apply aremove_In. tauto.
+      + exists q. split; [assumption|]. intros ->. exact (after_remove ops x i2 n Hq).
+  Qed.
 End Final.
 
 (* ---------- a ring built from a configuration (cache.New / kv.NewStore: AddWithWeight(node_i, weight_i) in order) ---------- *)
